@@ -8,6 +8,7 @@ package env
 
 import (
 	"math/big"
+	"time"
 
 	sdkmath "cosmossdk.io/math"
 	storetypes "cosmossdk.io/store/types"
@@ -47,10 +48,13 @@ var authority = authtypes.NewModuleAddress("gov")
 
 // New creates an environment whose bank ledger knows the given denominations
 // (the EVM denomination is always the first one).
-func New(extraDenoms ...string) *Env {
+func New(extraDenoms ...string) *Env { return NewAt(1_700_000_000, extraDenoms...) }
+
+// NewAt is New with the given block time (unix seconds, may be symbolic).
+func NewAt(blockTime int64, extraDenoms ...string) *Env {
 	e := &Env{Denoms: append([]string{EvmDenom}, extraDenoms...)}
 	e.MS = model.NewMS(model.AuthKey, model.BankKey, EvmKey, EvmTKey)
-	e.Ctx = sdk.NewContext(e.MS, cmtproto.Header{Height: 10, ChainID: "evermint_90909-1"}, false, model.NopLogger{})
+	e.Ctx = sdk.NewContext(e.MS, cmtproto.Header{Height: 10, ChainID: "evermint_90909-1", Time: time.Unix(blockTime, 0).UTC()}, false, model.NopLogger{})
 	if verif.Symbolic() {
 		e.mbk = &model.BK{Denoms: e.Denoms}
 		e.BK = e.mbk
